@@ -23,15 +23,25 @@ import (
 
 var ErrInjected = errors.New("mbolt: injected storage failure")
 
-// FaultCountdown > 0: the FaultCountdown-th mutating call from now fails.
-var FaultCountdown int
+// FaultCountdown > 0: the FaultCountdown-th Put from now fails (the position of
+// bbolt's own "beforeBucketPut" failpoint: after argument validation and the
+// incompatible-value check, before the insertion).
+var (
+	FaultCountdown int
+	FaultFired     bool
+)
 
-func SetFault(k int) { FaultCountdown = k }
+func SetFault(k int) { FaultCountdown, FaultFired = k, false }
 
-func fault() bool {
+func Disarm() { FaultCountdown = 0 }
+
+func Fired() bool { return FaultFired }
+
+func putFault() bool {
 	if FaultCountdown > 0 {
 		FaultCountdown--
 		if FaultCountdown == 0 {
+			FaultFired = true
 			return true
 		}
 	}
@@ -202,10 +212,6 @@ func (tx *Tx) commit() error {
 	if !tx.writable {
 		return berrors.ErrTxNotWritable
 	}
-	if fault() {
-		tx.rollback()
-		return ErrInjected
-	}
 	tx.root.n.normalize()
 	tx.db.root = tx.root.n
 	tx.db.wtx = nil
@@ -339,9 +345,6 @@ func (b *Bucket) CreateBucket(key []byte) (*Bucket, error) {
 		}
 		return nil, berrors.ErrIncompatibleValue
 	}
-	if fault() {
-		return nil, ErrInjected
-	}
 	b.n.touch()
 	sub := &node{dirty: true}
 	e := &entry{key: cloneBytes(key), sub: sub}
@@ -379,9 +382,6 @@ func (b *Bucket) DeleteBucket(key []byte) error {
 	if b.n.entries[i].sub == nil {
 		return berrors.ErrIncompatibleValue
 	}
-	if fault() {
-		return ErrInjected
-	}
 	b.n.touch()
 	b.n.entries = append(b.n.entries[:i:i], b.n.entries[i+1:]...)
 	return nil
@@ -409,7 +409,7 @@ func (b *Bucket) Put(key []byte, value []byte) error {
 	if ok && b.n.entries[i].sub != nil {
 		return berrors.ErrIncompatibleValue
 	}
-	if fault() {
+	if putFault() {
 		return ErrInjected
 	}
 	b.n.touch()
@@ -441,9 +441,6 @@ func (b *Bucket) Delete(key []byte) error {
 	}
 	if b.n.entries[i].sub != nil {
 		return berrors.ErrIncompatibleValue
-	}
-	if fault() {
-		return ErrInjected
 	}
 	b.n.touch()
 	b.n.entries = append(b.n.entries[:i:i], b.n.entries[i+1:]...)
@@ -593,9 +590,6 @@ func (c *Cursor) Delete() error {
 	k, _, isB := c.keyValue()
 	if isB {
 		return berrors.ErrIncompatibleValue
-	}
-	if fault() {
-		return ErrInjected
 	}
 	// bbolt: c.node().del(key) on the live node; a nil key deletes nothing
 	// but still materialises the node
